@@ -100,7 +100,11 @@ impl SegmentLogWriter {
         let batch_size = batch.get_size_bytes();
         match confirmation {
             Confirmation::Wait => {
+                #[cfg(feature = "iggy_verif")]
+                crate::verif::chaos_point("log_writer.before_write").await;
                 self.write_batch(batch).await?;
+                #[cfg(feature = "iggy_verif")]
+                crate::verif::chaos_point("log_writer.after_write").await;
                 self.log_size_bytes
                     .fetch_add(batch_size.as_bytes_u64(), Ordering::AcqRel);
                 trace!(
